@@ -98,11 +98,11 @@ Record kraw := { k_wd : N; k_mask : N; k_cookie : N; k_name : bytes }.
 Record kwatch := { kw_wd : N; kw_ino : N; kw_mask : N }.
 Record kst := { k_watches : list kwatch; k_next_wd : N; k_queue : list kraw; k_next_cookie : N }.
 
+(* the kernel's event_compare: wd, mask and name - NOT the cookie (fs/notify/inotify/inotify_fsnotify.c) *)
 Definition kraw_eqb (a b : kraw) : bool :=
-  N.eqb (k_wd a) (k_wd b) && N.eqb (k_mask a) (k_mask b) && N.eqb (k_cookie a) (k_cookie b) &&
-  beqb (k_name a) (k_name b).
+  N.eqb (k_wd a) (k_wd b) && N.eqb (k_mask a) (k_mask b) && beqb (k_name a) (k_name b).
 
-(* append an event; an event identical to the last unread one is coalesced *)
+(* append an event; an event equal (up to the cookie) to the last unread one is coalesced *)
 Definition kpush (q : list kraw) (e : kraw) : list kraw :=
   match rev q with
   | l :: _ => if kraw_eqb l e then q else q ++ [e]
